@@ -24,12 +24,14 @@ FarFails(a, b, inter, rev, panicked) ==
 
 \* rectangles whose last column / row is (close to) i32::MAX: the corner exists, so bottom_right() must return it and
 \* contains() must accept it; only differences are taken (the sums do not fit the specification's 32-bit integers)
-\* item = <<r, bottom_right or <<>>, contains(bottom right corner) 0/1, contains(top left) 0/1, panicked 0/1>>
+\* item = <<r, bottom_right or <<>>, contains(bottom right corner) 0/1, contains(top left) 0/1, panicked 0/1, points().count()>>
 EdgeFails(it) ==
   LET r == it[1] IN
   IF it[5] = 1 THEN {"edge_rectangle_method_panicked"}
   ELSE   (IF Len(it[2]) = 2 /\ it[2][1] - r[1] = r[3] - 1 /\ it[2][2] - r[2] = r[4] - 1 THEN {} ELSE {"bottom_right_of_edge_rectangle"})
     \cup (IF it[3] = 1 /\ it[4] = 1 THEN {} ELSE {"edge_rectangle_does_not_contain_its_corner"})
+    \* points() enumerates all width x height points (it[6] = points().count())
+    \cup (IF it[6] = r[3] * r[4] THEN {} ELSE {"points_of_edge_rectangle_incomplete"})
 
 \* doubled middle of a side that is treated as at least one pixel long
 Mid2(pos, len) == 2 * pos + Max(len, 1) - 1
